@@ -29,7 +29,7 @@ func init() {
 		Real: []string{"service/rtsp pusher session (ANNOUNCE/SETUP/RECORD, interleaved frames through receive/ReadPacket)", "media.Stream + H264Cache", "rtp.Demuxer + depacketizers", "flv.Muxer + HTTP-FLV handler",
 			"mpegts.Muxer + hls.SegmentGenerator + Playlist", "sdp.ParseMetadata and the parameter-set decoders (hostile SDP)"},
 		Stub: []string{"TCP (sim.Conn)", "HTTP response writer of the FLV viewer", "RTP consumer is a recording media.Consumer"},
-		Rule: "one run = a publisher session pushing one clean GOP, then 1-3 malformed interleaved frames (fault kind x template x offset: truncation at an offset, byte corruption in the first 24 bytes, header-only / shorter-than-header packets, RTP header extensions with lying lengths, " +
+		Rule: "one run = a publisher session pushing one clean GOP, then 1-3 malformed interleaved frames (fault kind x template x offset: a whole GOP with one packet corrupted or truncated in place, truncation at an offset, byte corruption in the first 24 bytes, header-only / shorter-than-header packets, RTP header extensions with lying lengths, " +
 			"aggregation and fragmentation units with lying sizes, bad AU-header sections, RTCP garbage of 0..40 bytes, unknown channel, random bytes) or a hostile SDP at ANNOUNCE, then four clean GOPs 6 s of media time apart; a second stream and a second session " +
 			"run beside it. Oracle (bounded liveness after the faults stop): the session and its stream survive, every later packet reaches the RTP consumer, every later NAL/AAC frame reaches the FLV viewer, the HLS playlist appears and its newest " +
 			"segments carry later frames, the second stream and session are untouched. evaluations = runs; distinct = distinct (fault kind, template, offset class, event-log hash)",
@@ -151,11 +151,14 @@ func buildC07src(tier string, fromCamera bool) sim.Scenario {
 			w.Probe("c07.fault-injected")
 		}
 		// H.265 source (no HLS for it in ipchub: relay and FLV are judged): its own cache classifier, depacketizer and FLV packetizer
-		hevc := !hostileSDP && !noSprop && tp.OneIn(3)
+		hevc := !hostileSDP && tp.OneIn(3)
 		cdc := oracle.H264
 		if hevc {
 			cdc = oracle.H265
 			sdp = sdpH265AAC
+			if noSprop {
+				sdp = strings.Replace(spropRe.ReplaceAllString(sdp, ""), "a=fmtp:96\n", "a=fmtp:96 profile-id=1\n", 1)
+			}
 			w.Probe("c07.h265-source")
 		}
 		var src c07Source
@@ -269,6 +272,7 @@ func buildC07src(tier string, fromCamera bool) sim.Scenario {
 			p.Write(&b, chcfg)
 			return b.Bytes()
 		}
+		damagePk := -1 // >= 0: one video packet of the next GOP is damaged in place (the packet the camera meant to send never arrives intact)
 		sendGOP := func(ts uint32, phase int) {
 			var aus []oracle.AU
 			sps := oracle.MakeNAL(oracle.H264, 7, id, 14)
@@ -293,9 +297,33 @@ func buildC07src(tier string, fromCamera bool) sim.Scenario {
 			for _, au := range aus {
 				flat = append(flat, au.NALs...)
 			}
-			for _, pk := range oracle.Pack(cdc, aus, 1400, tp.Choose) {
+			pks := oracle.Pack(cdc, aus, 1400, tp.Choose)
+			dmg := -1
+			if damagePk >= 0 {
+				dmg, damagePk = damagePk%len(pks), -1
+				if tp.Bool() {
+					dmg = 0 // the packet with (or starting with) the first parameter set
+				}
+			}
+			for k, pk := range pks {
 				p := mkRTP(rtp.ChannelVideo, 96, vseq, pk.Timestamp, pk.Marker, pk.Payload)
 				vseq++
+				if k == dmg {
+					d := append([]byte(nil), p.Data...)
+					name := ""
+					if tp.Choose(3) != 0 && len(d) > 12 {
+						off := 12 + tp.Choose(len(d)-12)
+						d[off] = byte(tp.Raw())
+						name = fmt.Sprintf("in-place-corrupt@%d/%d(pk %d of GOP)", off, len(d), k)
+					} else {
+						d = d[:12+tp.Choose(len(d)-11)]
+						name = fmt.Sprintf("in-place-truncate@%d/%d(pk %d of GOP)", len(d), len(p.Data), k)
+					}
+					faultNames = append(faultNames, name)
+					w.Logf("fault %s", name)
+					src.write(frame(&rtp.Packet{Channel: p.Channel, Data: d}))
+					continue
+				}
 				sp := sentPk{p: p, phase: phase}
 				if pk.Frag == 0 || pk.Frag == 3 {
 					for _, u := range pk.Units {
@@ -325,7 +353,19 @@ func buildC07src(tier string, fromCamera bool) sim.Scenario {
 		// faults
 		if !hostileSDP {
 			for f := 0; f < nFaults; f++ {
-				kind := tp.Choose(11)
+				kind := tp.Choose(13)
+				if kind >= 11 { // a whole GOP one of whose packets is damaged in place: a parameter set, a slice, a fragment
+					damagePk = tp.Choose(8)
+					w.Fault("damaged-gop")
+					w.Probe("c07.fault-injected")
+					sendGOP(90000+18000*uint32(f+1), 2) // within a second of the first GOP: the clean GOPs that follow are then more than a fragment length later
+					w.Sleep(200 * time.Millisecond)
+					if src.peerClosed() {
+						w.Fail("C07/session-lost", "the %s's connection was closed by the server after a GOP with one packet damaged in place %v", src.what, faultNames)
+						return
+					}
+					continue
+				}
 				var raw []byte
 				tmplV := mkRTP(rtp.ChannelVideo, 96, vseq, 90000+7200, true, oracle.Pack(oracle.H264, []oracle.AU{{NALs: [][]byte{oracle.MakeNAL(oracle.H264, 7, 1, 12), oracle.MakeNAL(oracle.H264, 8, 2, 5), oracle.MakeNAL(oracle.H264, 5, 3, 60)}, TS: 1}}, 1400, func(n int) int {
 					if n == 4 {
